@@ -354,7 +354,13 @@ class EtherCat(Protocol):
                    sent = True
                    if not self.send_queue.empty():
                        continue
-                except OverflowError:
+                except OverflowError as error:
+                    if not dgrams:
+                        # it does not even fit into an empty packet
+                        if not future.done():
+                            future.set_exception(error)
+                        sent = True
+                        continue
                     sent = False
                 ensure_future(self.process_packet(dgrams, packet))
                 dgrams = []
